@@ -53,7 +53,9 @@ def ensure_tools(ctx):
 
 
 def build_squid(ctx):
-    ctx.vbuild('src:squid')
+    # top-level default target: src/Makefile knows the libraries of its sub-directories only as files, so
+    # 'make -C src squid' alone would link stale archives after a source change below src/*/
+    ctx.vbuild('compat:all', 'lib:all', 'src:all')
     ensure_tools(ctx)
     exe = os.path.join(ctx.tree, 'src', 'squid')
     if not os.path.exists(exe):
